@@ -265,6 +265,30 @@ class Canon:
             return ('int', t.__qualname__, int(o))
         if kind == 'exc':
             return ('exc', t.__qualname__, self._c(o.args))
+        if kind == 'sub':
+            name = (t.__module__, t.__qualname__)
+            if issubclass(t, str):
+                return ('strsub', name, str.__str__(o))
+            if issubclass(t, float):
+                return ('fsub', name, float.hex(o))
+            if issubclass(t, tuple):
+                return ('tsub', name) + tuple([self._c(x) for x in tuple.__iter__(o)])
+            # mutable: identity matters (see kinds 4 / 5), and so do the instance's own fields
+            key = id(o)
+            n = self.cids.get(key)
+            if n is not None:
+                return ('alias', n)
+            self.cids[key] = len(self.cids)
+            self.keep.append(o)
+            if self.lib_class_state and t not in self.classes_seen:
+                self._note_class(t)
+            try:
+                fields = tuple((fn, self._c(v)) for fn, v in _fields(o))
+            except Exception:      # noqa - no inspectable fields
+                fields = ()
+            if issubclass(t, list):
+                return ('lsub', name, fields) + tuple([self._c(x) for x in list.__iter__(o)])
+            return ('dsub', name, fields) + tuple([(self._c(k), self._c(v)) for k, v in dict.items(o)])
         raise TypeError(kind)
 
     def _note_class(self, klass):
@@ -314,7 +338,7 @@ def _classify(t):
     if issubclass(t, BaseException):
         return 'exc'
     if issubclass(t, (tuple, list, dict, str, float)):
-        raise TypeError(f'canon: subclass of builtin container {t} not supported')
+        return 'sub'         # a subclass of a built-in container / scalar (a dict with bookkeeping, a named tuple ...)
     return 1
 
 
